@@ -22,7 +22,8 @@ TECHNIQUE = 'runtime contract on the Excel workflow vs hand composition of docum
 RULE = ('generated experiments: 1..3 instruments with different channel names, 0..2 bead rows, 1..4 sample rows x '
         'per-channel units from {empty, Channel, RFI, a.u., au, MEF, case/whitespace variants} x gate fractions x integer '
         'and float data x with/without histogram sheet; non-trivial = row with >= 1 reported channel; '
-        'distinct = digest(row file, units, fraction)')
+        'distinct = digest(row file, units, fraction)'
+        " Also: single and double precision cell files, cell files whose columns are arranged unlike the beads file, comma-separated cells in several blank spellings, gate fraction 0 and integer 1, a 'Channel' cell processed before a converted one.")
 ASSUMPTIONS = ['hand composition reuses the library steps (decided by C03/C05/C06/C08/C12)',
                "histogram scale for other letter cases of 'channel' is not settled by the docs: either accepted"]
 MIN_CHECKS = {'quick': 400, 'thorough': 8000}
